@@ -96,3 +96,4 @@ def run(chk, st, tier):
                             "index page, DATA_PAGE_V2, value encodings 2/3/5/8, BIT_PACKED definition or repetition levels (only on columns that have them), codecs LZO/BROTLI/LZ4/ZSTD/LZ4_RAW. The real reader must return an error "
                             "(constructor or Error()), deliver only the rows of earlier row groups, and not panic; compared with the reader model. distinct = distinct files.")
     chk.coverage["explanation"] = "see coq/props/C18.v."
+    chk.assumptions += ['for codecs the sandbox cannot produce (LZO, BROTLI, LZ4, ZSTD, LZ4_RAW) the payload is the uncompressed bytes: the reader must refuse on the codec id']
